@@ -197,6 +197,7 @@ class AtmCalibration(FunctionContract):
     prop = "C20"
     target = "rpylib.model.utils:calibrate_model_parameter_to_atm_call"
     name = "calibrate_model_parameter_to_atm_call"
+    cases = ("first calibration", "after the calibration of a model with the same spot, maturity and volatility but another rate and dividend yield")
 
     def configure(self, interp):
         from pyvc import ctx
@@ -224,16 +225,32 @@ class AtmCalibration(FunctionContract):
         model = vc.new("rpylib.model.levymodel.mixed.hem:ExponentialOfHEMModel", spot, r, d, par)
         lo, hi, T, bsig = vc.real("lo"), vc.real("hi"), vc.real("maturity"), vc.real("bs_sigma")
         vc.assume(And(lo < hi, T > 0, bsig > 0))
-        vc.ghost.update(model=model, spot=spot, r=r, d=d, T=T, bsig=bsig, interval=(lo, hi), calibrated=vc.real("calibrated_value"))
+        vc.ghost.update(model=model, spot=spot, r=r, d=d, T=T, bsig=bsig, interval=(lo, hi), calibrated=vc.real("calibrated_value"), history=case != "first calibration")
+        if case != "first calibration":
+            # an earlier calibration in the same interpreter: whatever it leaves behind (module-level tables ...) must not
+            # reach this one
+            r0, d0 = vc.real("r_earlier"), vc.real("d_earlier")
+            vc.assume(And(r0 >= 0, d0 >= 0))
+            par0 = vc.new("rpylib.model.levymodel.mixed.hem:HEMParameters", **P)
+            other = vc.new("rpylib.model.levymodel.mixed.hem:ExponentialOfHEMModel", spot, r0, d0, par0)
+            fn = vc.interp.get_function("rpylib.model.utils:calibrate_model_parameter_to_atm_call")
+            vc.interp.call(fn, [], dict(model=other, parameter="sigma", parameter_interval=(lo, hi), maturity=T, bs_sigma=bsig))
+            vc.ghost["calib_calls"], vc.ghost["bs_calls"] = [], []
         return dict(model=model, parameter="sigma", parameter_interval=(lo, hi), maturity=T, bs_sigma=bsig)
 
     def ensures(self, result, **a):
         from pyvc import ctx
         g = ctx.PATH.ghost
         calls, bs = g.get("calib_calls", []), g.get("bs_calls", [])
-        out = {"one-calibration-one-black-scholes-price": len(calls) == 1 and len(bs) == 1}
-        if len(calls) != 1 or len(bs) != 1:
-            return out
+        if g.get("history"):
+            # (how often the Black-Scholes pricer is called is not stated here: a table keyed on ALL its inputs would be fine)
+            out = {"one-calibration": len(calls) == 1}
+            if len(calls) != 1:
+                return out
+        else:
+            out = {"one-calibration-one-black-scholes-price": len(calls) == 1 and len(bs) == 1}
+            if len(calls) != 1 or len(bs) != 1:
+                return out
         c = calls[0]
         want = Sym(BSCALLF(*[as_real_term(lift(v)) for v in (g["spot"], g["r"], g["d"], g["bsig"], g["spot"], g["T"])]), "r")
         prod = c["product"]
@@ -253,6 +270,9 @@ class AtmCalibration(FunctionContract):
         orig = U.calibrate_model_parameter
         U.calibrate_model_parameter = lambda **kw: seen.update(kw) or 0.123
         try:
+            if case != "first calibration":
+                m0 = create_exponential_of_levy_model(ModelType.HEM)(spot=90.0, r=0.0, d=0.0)
+                U.calibrate_model_parameter_to_atm_call(model=m0, parameter="sigma", parameter_interval=(0.0, 1.0), maturity=0.7, bs_sigma=0.2)
             m = create_exponential_of_levy_model(ModelType.HEM)(spot=90.0, r=0.03, d=0.04)
             U.calibrate_model_parameter_to_atm_call(model=m, parameter="sigma", parameter_interval=(0.0, 1.0), maturity=0.7, bs_sigma=0.2)
         finally:
